@@ -68,6 +68,9 @@ def gen(ctx):
     res = ["X", "a", "é", "[a-z]", "[0-9]+", "", "a*", ".", "é+", "(?<n>[a-z])(?<d>[0-9]+)?", "\\s+", "€|😀", "b|c", "^", "$", "x?"]
     texts = [t.encode() for t in texts] + [b"a\x80\xc3\xa9b\xf0\x9f\x91\x8d\xe2\x82", b"\x80", b"a\xffb", b"\xc3", b"\xbf\xbfa", b"\xe2\x82a\x80"]
     res += [".+", "a(.)", "[^b]+", "(?s:.)", "a|b"]
+    # capture groups under a repetition need not start in increasing order
+    res += ["(?:(a)|(b))*", "((b)|(a))+", "(?:(?<x>c)|(?<y>b)|(a))+", "(?:(é)|(a)|(X))*", "(?:(.)(?:(b)|(a)))+"]
+    texts += [b"ba", b"abba", b"cab", b"a\xc3\xa9Xa", b"bXa\xff"]
     for t, r in itertools.product(texts, res):
         t = t.decode("latin-1")
         cases.append(dict(filter="[[match($re; \"g\")] as $ms | ($ms | map(. as $m | $in | .[$m.offset : $m.offset + $m.length] == $m.string) | all), "
